@@ -25,7 +25,8 @@ SPEC = {
              "the default; distinct = distinct case."),
     "shards": {"quick": 16, "thorough": 16},
     "min_counts": {"quick": {"evaluations": 1000, "yields_checked": 5000, "loops_checked": 1500, "removed_checked": 1000,
-                             "untouched_checked": 1000, "nested_loops": 300}},
+                             "untouched_checked": 1000, "nested_loops": 300, "later_passes": 500,
+                             "reused_populate_objects": 200, "snapshots_taken": 200}},
     "assumptions": [
         "pre-existing explicit defaults of z that the body leaves alone may stay or be removed (only content is compared for them)",
         "bodies that break / raise are judged on WF and RC only",
@@ -84,7 +85,10 @@ def generate(rng, tier, shard, nshards, mon):
                 "a": gen.rand_tree_spec(rng, ext, rng.choice([0.3, 0.6, 0.9]), rng.choice([0, 0.4]), default),
                 "a2": gen.rand_leaf_spec(rng, ext[0], 0.7, 0.1, default), "src": src,
                 "own": "free" if depth == 1 and rng.random() < 0.4 else "tensor",
-                "stop": rng.choice([None] * 8 + ["break", "raise"]), "at": rng.randint(0, 3)}
+                "stop": rng.choice([None] * 8 + ["break", "raise"]), "at": rng.randint(0, 3),
+                # the same destination driven through several loops; the populate object may be built once and reused;
+                # a snapshot (Tensor.fromFiber on the owned root) may be taken between two loops
+                "passes": rng.choice([1, 1, 2, 3]), "hoist": rng.random() < 0.5, "snapshot": rng.random() < 0.5}
         yield case
 
 
@@ -188,7 +192,13 @@ def run_case(case, mon):
         mon.count("loops_checked")
         if level > 0:
             mon.count("nested_loops")
-        for c, (z_ref, a_val) in zf << lazy_fiber:
+        if level == 0 and hoisted:
+            if not hoisted[0]:
+                hoisted[0] = [zf << lazy_fiber]
+            pop = hoisted[0][0]
+        else:
+            pop = zf << lazy_fiber
+        for c, (z_ref, a_val) in pop:
             k = len(seen)
             seen.append(c)
             st["yields"] += 1
@@ -231,7 +241,7 @@ def run_case(case, mon):
             if table is not None:
                 act, val = table[str(c)], 5
             else:
-                act, val = _act(seed, level, prefix, c, leaf)
+                act, val = _act(seed + pstate["pass"] * 7919, level, prefix, c, leaf)
             if leaf:
                 av = unbox(a_val)
                 if isinstance(av, tuple):
@@ -281,25 +291,47 @@ def run_case(case, mon):
             mon.check(now.get(c) is obj and snap(obj) == s0, "populate:outside-touched",
                       f"z coordinate {prefix + (c,)} is outside the source but its payload changed")
 
-    try:
-        loop(z, source, 0, (), lazy, fmts[0] if at is not None else "C")
-        stopped = False
-    except _Stop:
-        stopped = True
-    except _Bad:
-        return
-    except BaseException as e:      # noqa
-        if isinstance(e, KeyboardInterrupt):
-            raise
-        mon.violation(f"populate:raised:{type(e).__name__}", f"populate raised {type(e).__name__}: {e}; case src={src}")
-        return
-    try:
-        invariants("after-loop")
-    except _Bad:
-        return
-    if not stopped:
+    passes = case.get("passes", 1) if not case.get("stop") else 1
+    hoisted = [None] if (case.get("hoist") and passes > 1) else []
+    pstate = {"pass": 0}
+    stopped = False
+    for pno in range(passes):
+        pstate["pass"] = pno
+        tag = "" if pno == 0 else ":later-pass"
+        if pno:
+            mon.count("later_passes")
+            if hoisted:
+                mon.count("reused_populate_objects")
+        try:
+            loop(z, source, 0, (), lazy, fmts[0] if at is not None else "C")
+        except _Stop:
+            stopped = True
+        except _Bad:
+            return
+        except BaseException as e:      # noqa
+            if isinstance(e, KeyboardInterrupt):
+                raise
+            mon.violation(f"populate:raised:{type(e).__name__}{tag}", f"populate raised {type(e).__name__}: {e}; case src={src} pass={pno}")
+            return
+        try:
+            invariants("after-loop")
+        except _Bad:
+            return
+        if stopped:
+            break
         got = content(subject, d)
-        mon.check(got == model, "populate:content", f"after the loop z holds {got}, model (old content overridden by the writes) is {model}")
+        if not mon.check(got == model, "populate:content" + tag,
+                         f"after loop #{pno} z holds {got}, model (old content overridden by the writes) is {model}"):
+            return
+        if zt is not None and case.get("snapshot") and pno + 1 < passes:
+            # a snapshot of the destination between two loops leaves the destination as it was
+            snapshot = Tensor.fromFiber(rank_ids=list(ids), fiber=zt.getRoot(), shape=list(shape), default=d)
+            mon.count("snapshots_taken")
+            mon.check(content(snapshot, d) == model, "snapshot:content", f"snapshot of z holds {content(snapshot, d)}, z holds {model}")
+            try:
+                invariants("after-snapshot")
+            except _Bad:
+                return
     after_a = [snap(x) for x in a_watch]
     if after_a != before_a:
         extra = ""
